@@ -14,6 +14,12 @@ Proof.
   destruct v; unfold veqb; simpl; rewrite ?Z.eqb_refl, ?Nat.eqb_refl; try reflexivity.
 Qed.
 
+Lemma In_vmem v l : In v l -> vmem v l = true.
+Proof.
+  unfold vmem. induction l as [|w l IH]; simpl; intros H; [contradiction|].
+  destruct H as [H|H]; [subst w; rewrite veqb_refl; reflexivity | rewrite (IH H); apply orb_true_r].
+Qed.
+
 Lemma veqb_nonobj w v : obj_of v = None -> veqb w v = true -> obj_of w = None.
 Proof. destruct w, v; simpl; intros H1 H2; try reflexivity; try discriminate. Qed.
 
@@ -30,7 +36,7 @@ Proof. destruct v; simpl; try (right; split; reflexivity). left. exists o. split
 Lemma remove_first_objs_nonobj v l l' :
   obj_of v = None -> remove_first veqb v l = Some l' -> objs_of l' = objs_of l.
 Proof.
-  intros Hv. revert l'. induction l as [|a r IH]; simpl; intros l' H; [discriminate|].
+  intros Hv. revert l'. induction l as [|a r IH]; cbn [remove_first]; intros l' H; [discriminate|].
   destruct (veqb a v) eqn:E.
   - inversion H; subst l'. symmetry. apply objs_of_cons_nonobj. exact (veqb_nonobj a v Hv E).
   - destruct (remove_first veqb v r) as [r'|]; [|discriminate]. inversion H; subst l'.
@@ -50,7 +56,7 @@ Lemma remove_first_objs_sub v l l' :
   remove_first veqb v l = Some l' ->
   (forall o, In o (objs_of l') -> In o (objs_of l)) /\ (NoDup (objs_of l) -> NoDup (objs_of l')).
 Proof.
-  revert l'. induction l as [|a r IH]; simpl; intros l' H; [discriminate|].
+  revert l'. induction l as [|a r IH]; cbn [remove_first]; intros l' H; [discriminate|].
   destruct (veqb a v) eqn:E.
   - inversion H; subst l'.
     destruct (objs_of_cons_cases a r) as [[y [Ea E1]]|[Ea E1]]; rewrite E1.
@@ -78,7 +84,7 @@ Lemma remove_first_is_remove_at y l n :
   remove_first veqb (VObj y) l = Some (remove_at n l).
 Proof.
   unfold nodup_objs. revert n. induction l as [|a r IH]; intros n ND H; [destruct n; discriminate|].
-  destruct n as [|n]; simpl in *.
+  destruct n as [|n]; cbn [nth_error remove_first remove_at] in *.
   - inversion H; subst a. rewrite veqb_refl. reflexivity.
   - destruct (veqb a (VObj y)) eqn:E.
     + apply veqb_obj_r in E. subst a. simpl in ND. inversion ND as [|? ? Hn ND']; subst.
@@ -93,7 +99,7 @@ Lemma remove_at_objs_nonobj {v} l n :
   nth_error l n = Some v -> obj_of v = None -> objs_of (remove_at n l) = objs_of l.
 Proof.
   revert n. induction l as [|a r IH]; intros n H Hv; [destruct n; discriminate|].
-  destruct n as [|n]; simpl in *.
+  destruct n as [|n]; cbn [nth_error remove_at] in *.
   - inversion H; subst a. symmetry. apply objs_of_cons_nonobj. exact Hv.
   - specialize (IH n H Hv).
     destruct (objs_of_cons_cases a r) as [[z [Ea E1]]|[Ea E1]].
@@ -116,8 +122,9 @@ Qed.
 
 Lemma objs_of_insert_at_nonobj v n l : obj_of v = None -> objs_of (insert_at n v l) = objs_of l.
 Proof.
-  intros Hv. revert n. induction l as [|a r IH]; intros [|n]; simpl;
-    try (apply (objs_of_cons_nonobj v _ Hv)).
+  intros Hv. revert n. induction l as [|a r IH]; intros n.
+  { destruct n; cbn [insert_at]; apply (objs_of_cons_nonobj v _ Hv). }
+  destruct n as [|n]; cbn [insert_at]; [apply (objs_of_cons_nonobj v _ Hv)|].
   destruct (objs_of_cons_cases a r) as [[z [Ea E1]]|[Ea E1]].
   - subst a. simpl. rewrite IH. reflexivity.
   - rewrite E1. rewrite (objs_of_cons_nonobj a _ Ea). apply IH.
@@ -139,11 +146,12 @@ Lemma nodup_insert_at_obj y n l :
 Proof.
   unfold nodup_objs. intros ND Hn. revert n ND Hn. induction l as [|a r IH]; intros n ND Hn.
   - destruct n; simpl; (constructor; [intros [] | constructor]).
-  - destruct n as [|n]; simpl.
-    + constructor; [rewrite objs_of_In; exact Hn | exact ND].
+  - destruct n as [|n]; cbn [insert_at].
+    + rewrite objs_of_cons_obj. constructor; [rewrite objs_of_In; exact Hn | exact ND].
     + assert (Hn' : ~ In (VObj y) r) by (intros H; apply Hn; right; exact H).
       destruct (objs_of_cons_cases a r) as [[z [Ea E1]]|[Ea E1]].
-      * subst a. simpl in *. inversion ND as [|? ? Hz ND']; subst. constructor; [|apply IH; assumption].
+      * subst a. rewrite objs_of_cons_obj in *. inversion ND as [|? ? Hz ND']; subst.
+        constructor; [|apply IH; assumption].
         rewrite objs_of_In. intros H. apply insert_at_In in H. destruct H as [H|H].
         -- apply Hn. left. exact H.
         -- apply Hz. apply objs_of_In. exact H.
@@ -222,4 +230,1190 @@ Proof.
   - intros a h. destruct (cell_eqb_spec (a, h) (x, f)) as [E|N].
     + inversion E; subst a h. split; [exact Hsing | intros C; congruence].
     + rewrite (Hfr _ N). exact (Hsh a h).
+Qed.
+
+(* ---------- SHAPE: one lemma per kernel procedure (no containment) ---------- *)
+Section Shape.
+Variable m : mm.
+Hypothesis Hnc : no_containment m.
+Hypothesis Hwf : wf_opp m.
+
+Lemma wf_unique f : f_opp (fd m f) <> None -> f_many (fd m f) = true -> f_unique (fd m f) = true.
+Proof.
+  intros Ho Hm. destruct (f_opp (fd m f)) as [g|] eqn:E; [|congruence].
+  destruct (Hwf f g E) as [_ [_ Hu]]. exact (Hu Hm).
+Qed.
+
+Lemma shape_set_vals s k l :
+  shape m s ->
+  (f_many (fd m (snd k)) = false -> exists v, l = [v]) ->
+  (f_opp (fd m (snd k)) <> None -> nodup_objs l) ->
+  shape m (set_vals s k l).
+Proof.
+  intros H H1 H2 a f. cbn [vals set_vals]. unfold upd.
+  destruct (cell_eqb_spec k (a, f)) as [E|N]; [subst k; split; assumption | exact (H a f)].
+Qed.
+
+Lemma shape_write1 s k v : shape m s -> shape m (set_vals s k [v]).
+Proof.
+  intros H. apply shape_set_vals; [exact H | intros _; exists v; reflexivity | intros _; apply nodup_single].
+Qed.
+
+Lemma shape_set_store s k v : shape m s -> shape m (set_store m s k v).
+Proof. intros H. exact (shape_write1 s k v H). Qed.
+
+Lemma shape_set_none_raw s k : shape m s -> shape m (set_none_raw m s k).
+Proof.
+  intros H. apply (shape_ext m (set_vals s k [VNone])); [|exact (shape_write1 s k VNone H)].
+  intros k'. rewrite (vals_set_none_raw m Hnc). reflexivity.
+Qed.
+
+Lemma shape_set_obj_raw s k x : shape m s -> shape m (set_obj_raw m s k x).
+Proof.
+  intros H. apply (shape_ext m (set_vals s k [VObj x])); [|exact (shape_write1 s k (VObj x) H)].
+  intros k'. rewrite (vals_set_obj_raw m Hnc). reflexivity.
+Qed.
+
+Lemma shape_coll_remove_raw s k x :
+  shape m s -> f_many (fd m (snd k)) = true -> shape m (coll_remove_raw m s k x).
+Proof.
+  intros H Hm.
+  destruct (vmem (VObj x) (vals s k)) eqn:E.
+  - apply (shape_ext m (set_vals s k (raw_remove (VObj x) (vals s k)))).
+    + intros k'. rewrite (vals_coll_remove_raw m Hnc). rewrite E. reflexivity.
+    + apply shape_set_vals; [exact H | intros C; congruence|].
+      intros Ho. apply nodup_raw_remove. destruct k as [a f]. exact (proj2 (H a f) Ho).
+  - apply (shape_ext m s); [|exact H]. intros k'. rewrite (vals_coll_remove_raw m Hnc). rewrite E. reflexivity.
+Qed.
+
+Lemma shape_coll_append_raw s k x :
+  shape m s -> f_many (fd m (snd k)) = true -> shape m (coll_append_raw m s k x).
+Proof.
+  intros H Hm.
+  apply (shape_ext m (set_vals s k (raw_append (f_unique (fd m (snd k))) (VObj x) (vals s k)))).
+  - intros k'. rewrite (vals_coll_append_raw m Hnc). reflexivity.
+  - apply shape_set_vals; [exact H | intros C; congruence|].
+    intros Ho. rewrite (wf_unique _ Ho Hm). apply nodup_raw_append. destruct k as [a f]. exact (proj2 (H a f) Ho).
+Qed.
+
+Lemma shape_inv_add s o c : shape m s -> shape m (inv_add s o c).
+Proof. intros H. unfold inv_add. destruct (cmem c (inv s o)); exact H. Qed.
+
+Lemma shape_update_opposite_remove s x f y :
+  shape m s -> shape m (update_opposite_remove m s x f y).
+Proof.
+  intros H. unfold update_opposite_remove. destruct (f_opp (fd m f)) as [g|].
+  - destruct (f_many (fd m g)) eqn:Hg.
+    + destruct (cell_eqb (y, g) (x, f)); [exact H | apply shape_coll_remove_raw; assumption].
+    + apply shape_set_none_raw; exact H.
+  - destruct (cmem (x, f) (inv s y)); [exact H | apply shape_inv_add; exact H].
+Qed.
+
+Lemma shape_unlink_elem s x f v : shape m s -> shape m (unlink_elem m s x f v).
+Proof.
+  intros H. unfold unlink_elem. destruct (f_isref (fd m f)); [|exact H].
+  destruct (obj_of v); [|exact H]. rewrite (uc_clear_id m Hnc). apply shape_update_opposite_remove; exact H.
+Qed.
+
+Lemma shape_coll_remove_full s x f v :
+  shape m s -> f_many (fd m f) = true -> shape m (coll_remove_full m s (x, f) v).
+Proof.
+  intros H Hm. unfold coll_remove_full. fold (unlink_elem m s x f v).
+  set (s1 := unlink_elem m s x f v).
+  assert (H1 : shape m s1) by (apply shape_unlink_elem; exact H).
+  apply (shape_ext m (set_vals s1 (x, f) (raw_remove v (vals s1 (x, f))))); [reflexivity|].
+  apply shape_set_vals; [exact H1 | intros C; cbn [snd] in C; congruence|].
+  intros Ho. apply nodup_raw_remove. exact (proj2 (H1 x f) Ho).
+Qed.
+
+Lemma shape_set_full s x f v :
+  shape m s -> f_many (fd m f) = false -> shape m (snd (set_full m s (x, f) v)).
+Proof.
+  intros H Hs. unfold set_full.
+  destruct (check_single m f v); cbn [negb]; [|exact H].
+  assert (H1 : shape m (set_store m s (x, f) v)) by (apply shape_set_store; exact H).
+  destruct (f_isref (fd m f)); cbn [negb]; [|exact H1].
+  rewrite (update_container_id m Hnc).
+  destruct (f_opp (fd m f)) as [g|] eqn:Eg.
+  - set (s3 := match obj_of (single s (x, f)) with
+               | Some q =>
+                 if match obj_of v with Some y => y =? q | None => false end then set_store m s (x, f) v
+                 else if f_many (fd m g) then coll_remove_raw m (set_store m s (x, f) v) (q, g) x
+                 else if cell_eqb (q, g) (x, f) then set_store m s (x, f) v
+                      else set_none_raw m (set_store m s (x, f) v) (q, g)
+               | None => set_store m s (x, f) v end).
+    assert (H3 : shape m s3).
+    { unfold s3. destruct (obj_of (single s (x, f))) as [q|]; [|exact H1].
+      destruct (match obj_of v with Some y => y =? q | None => false end); [exact H1|].
+      destruct (f_many (fd m g)) eqn:Hg; [apply shape_coll_remove_raw; assumption|].
+      destruct (cell_eqb (q, g) (x, f)); [exact H1 | apply shape_set_none_raw; exact H1]. }
+    destruct (obj_of v) as [y|]; [|exact H3].
+    destruct (f_many (fd m g)) eqn:Hg; cbn [snd].
+    + apply shape_coll_append_raw; assumption.
+    + apply shape_set_obj_raw.
+      destruct (obj_of (single s3 (y, g))) as [c|]; [|exact H3].
+      destruct (c =? x); [exact H3 | apply shape_set_none_raw; exact H3].
+  - cbn [snd]. destruct (obj_of v) as [y|].
+    + apply shape_inv_add. destruct (obj_of (single s (x, f))); exact H1.
+    + destruct (obj_of (single s (x, f))); exact H1.
+Qed.
+
+Lemma shape_update_opposite_add s x f y :
+  shape m s -> f_many (fd m f) = true -> shape m (update_opposite_add m s x f y).
+Proof.
+  intros H Hm. unfold update_opposite_add. destruct (f_opp (fd m f)) as [g|].
+  - destruct (f_many (fd m g)) eqn:Hg.
+    + destruct (cell_eqb (y, g) (x, f)); [exact H | apply shape_coll_append_raw; assumption].
+    + apply shape_set_obj_raw.
+      destruct (obj_of (single s (y, g))) as [c|]; [|exact H].
+      destruct (c =? x); [exact H | apply shape_coll_remove_raw; assumption].
+  - apply shape_inv_add; exact H.
+Qed.
+
+Lemma shape_link_elem s x f v :
+  shape m s -> f_many (fd m f) = true -> shape m (link_elem m s x f v).
+Proof.
+  intros H Hm. unfold link_elem. destruct (f_isref (fd m f)); [|exact H].
+  destruct (obj_of v); [|exact H]. rewrite (update_container_id m Hnc).
+  apply shape_update_opposite_add; assumption.
+Qed.
+
+Lemma shape_coll_add_full s x f pos v :
+  shape m s -> f_many (fd m f) = true -> shape m (snd (coll_add_full m s (x, f) pos v)).
+Proof.
+  intros H Hm. unfold coll_add_full.
+  destruct (check_elem m f v); cbn [negb]; [|exact H].
+  set (s1 := link_elem m s x f v).
+  assert (H1 : shape m s1) by (apply shape_link_elem; assumption).
+  cbn [snd].
+  apply (shape_ext m (set_vals s1 (x, f)
+     match pos with
+     | Some i => raw_insert (f_unique (fd m f)) i v (vals s1 (x, f))
+     | None => raw_append (f_unique (fd m f)) v (vals s1 (x, f)) end)); [reflexivity|].
+  apply shape_set_vals; [exact H1 | intros C; cbn [snd] in C; congruence|].
+  cbn [snd]. intros Ho. rewrite (wf_unique f Ho Hm).
+  destruct pos; [apply nodup_raw_insert | apply nodup_raw_append]; exact (proj2 (H1 x f) Ho).
+Qed.
+
+End Shape.
+
+(* ---------- value store after unlink_elem / link_elem (no containment) ---------- *)
+Section Stores.
+Variable m : mm.
+Hypothesis Hnc : no_containment m.
+Hypothesis Hwf : wf_opp m.
+
+Definition Uval (V : cell -> list value) (x : oid) (f : fid) (v : value) : cell -> list value :=
+  if f_isref (fd m f) then
+    match obj_of v with
+    | Some y =>
+      match f_opp (fd m f) with
+      | None => V
+      | Some g =>
+        if f_many (fd m g) then
+          if cell_eqb (y, g) (x, f) then V
+          else if vmem (VObj x) (V (y, g)) then upd V (y, g) (raw_remove (VObj x) (V (y, g))) else V
+        else upd V (y, g) [VNone]
+      end
+    | None => V
+    end
+  else V.
+
+Lemma vals_unlink s x f v : vals (unlink_elem m s x f v) = Uval (vals s) x f v.
+Proof.
+  unfold unlink_elem, Uval. destruct (f_isref (fd m f)); [|reflexivity].
+  destruct (obj_of v) as [y|]; [|reflexivity]. rewrite (uc_clear_id m Hnc).
+  unfold update_opposite_remove. destruct (f_opp (fd m f)) as [g|].
+  - destruct (f_many (fd m g)).
+    + destruct (cell_eqb (y, g) (x, f)); [reflexivity|].
+      rewrite (vals_coll_remove_raw m Hnc). destruct (vmem (VObj x) (vals s (y, g))); reflexivity.
+    + rewrite (vals_set_none_raw m Hnc). reflexivity.
+  - destruct (cmem (x, f) (inv s y)); [reflexivity|]. unfold inv_add.
+    destruct (cmem (x, f) (inv s y)); reflexivity.
+Qed.
+
+Lemma Uval_comm V x f v L :
+  f_many (fd m f) = true ->
+  forall k, Uval (upd V (x, f) L) x f v k = upd (Uval V x f v) (x, f) L k.
+Proof.
+  intros Hm k. unfold Uval. destruct (f_isref (fd m f)); [|reflexivity].
+  destruct (obj_of v) as [y|]; [|reflexivity].
+  destruct (f_opp (fd m f)) as [g|]; [|reflexivity].
+  destruct (f_many (fd m g)) eqn:Hg.
+  - destruct (cell_eqb_spec (y, g) (x, f)) as [E|N]; [reflexivity|].
+    rewrite (upd_other V (x, f) (y, g)) by (intros E; apply N; symmetry; exact E).
+    destruct (vmem (VObj x) (V (y, g))); [|reflexivity].
+    apply upd_comm. intros E; apply N; symmetry; exact E.
+  - apply upd_comm. intros E; inversion E; congruence.
+Qed.
+
+Lemma Uval_own V x f v : f_many (fd m f) = true -> Uval V x f v (x, f) = V (x, f).
+Proof.
+  intros Hm. unfold Uval. destruct (f_isref (fd m f)); [|reflexivity].
+  destruct (obj_of v) as [y|]; [|reflexivity].
+  destruct (f_opp (fd m f)) as [g|]; [|reflexivity].
+  destruct (f_many (fd m g)) eqn:Hg.
+  - destruct (cell_eqb_spec (y, g) (x, f)) as [E|N]; [reflexivity|].
+    destruct (vmem (VObj x) (V (y, g))); [|reflexivity]. apply upd_other. exact N.
+  - apply upd_other. intros E; inversion E; congruence.
+Qed.
+
+Definition Lval (V : cell -> list value) (x : oid) (f : fid) (v : value) : cell -> list value :=
+  if f_isref (fd m f) then
+    match obj_of v with
+    | Some y =>
+      match f_opp (fd m f) with
+      | None => V
+      | Some g =>
+        if f_many (fd m g) then
+          if cell_eqb (y, g) (x, f) then V
+          else upd V (y, g) (raw_append (f_unique (fd m g)) (VObj x) (V (y, g)))
+        else
+          let V1 := match obj_of (hdv (V (y, g))) with
+                    | Some c => if c =? x then V
+                                else if vmem (VObj y) (V (c, f)) then upd V (c, f) (raw_remove (VObj y) (V (c, f)))
+                                else V
+                    | None => V
+                    end in
+          upd V1 (y, g) [VObj x]
+      end
+    | None => V
+    end
+  else V.
+
+Lemma vals_link s x f v : vals (link_elem m s x f v) = Lval (vals s) x f v.
+Proof.
+  unfold link_elem, Lval. destruct (f_isref (fd m f)); [|reflexivity].
+  destruct (obj_of v) as [y|]; [|reflexivity]. rewrite (update_container_id m Hnc).
+  unfold update_opposite_add. destruct (f_opp (fd m f)) as [g|].
+  - destruct (f_many (fd m g)).
+    + destruct (cell_eqb (y, g) (x, f)); [reflexivity|].
+      rewrite (vals_coll_append_raw m Hnc). reflexivity.
+    + rewrite (vals_set_obj_raw m Hnc). change (single s (y, g)) with (hdv (vals s (y, g))).
+      destruct (obj_of (hdv (vals s (y, g)))) as [c|]; [|reflexivity].
+      destruct (c =? x); [reflexivity|]. rewrite (vals_coll_remove_raw m Hnc).
+      destruct (vmem (VObj y) (vals s (c, f))); reflexivity.
+  - unfold inv_add. destruct (cmem (x, f) (inv s y)); reflexivity.
+Qed.
+
+Lemma Lval_comm V x f v L :
+  f_many (fd m f) = true ->
+  forall k, Lval (upd V (x, f) L) x f v k = upd (Lval V x f v) (x, f) L k.
+Proof.
+  intros Hm k. unfold Lval. destruct (f_isref (fd m f)); [|reflexivity].
+  destruct (obj_of v) as [y|]; [|reflexivity].
+  destruct (f_opp (fd m f)) as [g|]; [|reflexivity].
+  destruct (f_many (fd m g)) eqn:Hg.
+  - destruct (cell_eqb_spec (y, g) (x, f)) as [E|N]; [reflexivity|].
+    rewrite (upd_other V (x, f) (y, g)) by (intros E; apply N; symmetry; exact E).
+    apply upd_comm. intros E; apply N; symmetry; exact E.
+  - assert (Ng : (x, f) <> (y, g)) by (intros E; inversion E; congruence).
+    rewrite (upd_other V (x, f) (y, g)) by exact Ng. cbv zeta.
+    destruct (obj_of (hdv (V (y, g)))) as [c|].
+    + destruct (Nat.eqb_spec c x) as [Ec|Nc]; [apply upd_comm; exact Ng|].
+      assert (Ncf : (x, f) <> (c, f)) by (intros E; inversion E; congruence).
+      rewrite (upd_other V (x, f) (c, f)) by exact Ncf.
+      destruct (vmem (VObj y) (V (c, f))); [|apply upd_comm; exact Ng].
+      unfold upd.
+      destruct (cell_eqb_spec (y, g) k), (cell_eqb_spec (c, f) k), (cell_eqb_spec (x, f) k);
+        try reflexivity; congruence.
+    + apply upd_comm. exact Ng.
+Qed.
+
+Lemma Lval_own V x f v : f_many (fd m f) = true -> Lval V x f v (x, f) = V (x, f).
+Proof.
+  intros Hm. unfold Lval. destruct (f_isref (fd m f)); [|reflexivity].
+  destruct (obj_of v) as [y|]; [|reflexivity].
+  destruct (f_opp (fd m f)) as [g|]; [|reflexivity].
+  destruct (f_many (fd m g)) eqn:Hg.
+  - destruct (cell_eqb_spec (y, g) (x, f)) as [E|N]; [reflexivity|]. apply upd_other. exact N.
+  - cbv zeta. rewrite upd_other by (intros E; inversion E; congruence).
+    destruct (obj_of (hdv (V (y, g)))) as [c|]; [|reflexivity].
+    destruct (Nat.eqb_spec c x) as [Ec|Nc]; [reflexivity|].
+    destruct (vmem (VObj y) (V (c, f))); [|reflexivity].
+    apply upd_other. intros E; inversion E; congruence.
+Qed.
+End Stores.
+
+(* ---------- self-opposite features: symmetric change of ONE edge relation ---------- *)
+Lemma sym_by_delta_self m s s' f (Dl Ad : oid -> oid -> Prop) :
+  wf_opp m -> sym m s -> f_opp (fd m f) = Some f ->
+  (forall a b, Dl a b -> Dl b a) -> (forall a b, Ad a b -> Ad b a) ->
+  (forall a b, R s' f a b <-> (R s f a b /\ ~ Dl a b) \/ Ad a b) ->
+  (forall h a, h <> f -> vals s' (a, h) = vals s (a, h)) ->
+  sym m s'.
+Proof.
+  intros Hwf Hsym Hff HDl HAd HR Hother f' g' Hfg' a b.
+  destruct (Nat.eq_dec f' f) as [Ef|Nf].
+  - subst f'. rewrite Hff in Hfg'. inversion Hfg'; subst g'.
+    rewrite !HR. pose proof (Hsym f f Hff a b) as S1.
+    pose proof (HDl a b). pose proof (HDl b a). pose proof (HAd a b). pose proof (HAd b a). tauto.
+  - assert (Ng : g' <> f).
+    { destruct (Hwf f' g' Hfg') as [Hg'f' _]. intros E; subst g'. congruence. }
+    unfold R. rewrite (Hother f' a Nf), (Hother g' b Ng). exact (Hsym f' g' Hfg' a b).
+Qed.
+
+(* the store after x.f = y for a single-valued self-opposite f *)
+Definition WS (V : cell -> list value) (x y : oid) (f : fid) : cell -> list value :=
+  let V1 := upd V (x, f) [VObj y] in
+  let V3 := match obj_of (hdv (V (x, f))) with
+            | Some q => if y =? q then V1 else if cell_eqb (q, f) (x, f) then V1 else upd V1 (q, f) [VNone]
+            | None => V1
+            end in
+  let V4 := match obj_of (hdv (V3 (y, f))) with
+            | Some c => if c =? x then V3 else upd V3 (c, f) [VNone]
+            | None => V3
+            end in
+  upd V4 (y, f) [VObj x].
+
+Lemma WS_V3_at_y (V : cell -> list value) (x y : oid) (f : fid) :
+  (match obj_of (hdv (V (x, f))) with
+   | Some q => if y =? q then upd V (x, f) [VObj y]
+               else if cell_eqb (q, f) (x, f) then upd V (x, f) [VObj y]
+               else upd (upd V (x, f) [VObj y]) (q, f) [VNone]
+   | None => upd V (x, f) [VObj y]
+   end) (y, f) = if y =? x then [VObj y] else V (y, f).
+Proof.
+  destruct (Nat.eqb_spec y x) as [E|N].
+  - subst y. destruct (obj_of (hdv (V (x, f)))) as [q|]; [|apply upd_same].
+    destruct (x =? q); [apply upd_same|].
+    destruct (cell_eqb_spec (q, f) (x, f)) as [E|N]; [apply upd_same|].
+    rewrite upd_other by exact N. apply upd_same.
+  - assert (Nc : (x, f) <> (y, f)) by (intros E; inversion E; congruence).
+    destruct (obj_of (hdv (V (x, f)))) as [q|]; [|apply upd_other; exact Nc].
+    destruct (Nat.eqb_spec y q) as [E|Nq]; [apply upd_other; exact Nc|].
+    destruct (cell_eqb_spec (q, f) (x, f)) as [E|N2]; [apply upd_other; exact Nc|].
+    rewrite upd_other by (intros E; inversion E; congruence). apply upd_other. exact Nc.
+Qed.
+
+Ltac fin0 := upd_cases; cbn [hdv] in *; intuition congruence.
+Ltac finb b x y :=
+  destruct (Nat.eq_dec b x) as [?|?];
+  [subst b; fin0 | destruct (Nat.eq_dec b y) as [?|?]; [subst b; fin0 | fin0]].
+Lemma self_store (V : cell -> list value) (x y : oid) (f : fid) :
+  (forall a b : oid, hdv (V (a, f)) = VObj b <-> hdv (V (b, f)) = VObj a) ->
+  forall a b : oid,
+    hdv (WS V x y f (a, f)) = VObj b <->
+    (hdv (V (a, f)) = VObj b /\ a <> x /\ b <> x /\ a <> y /\ b <> y) \/ (a = x /\ b = y) \/ (a = y /\ b = x).
+Proof.
+  intros HsymV a b. unfold WS. cbv zeta. rewrite WS_V3_at_y.
+  pose proof (HsymV a x) as S1. pose proof (HsymV a y) as S2.
+  destruct (Nat.eqb_spec y x) as [Eyx|Nyx].
+  - subst y. cbn [hdv obj_of]. rewrite Nat.eqb_refl.
+    destruct (obj_of (hdv (V (x, f)))) as [q|] eqn:Eq.
+    + apply obj_of_Some' in Eq. pose proof (HsymV x q) as S3.
+      destruct (Nat.eqb_spec x q) as [Exq|Nxq].
+      * finb b x x.
+      * destruct (cell_eqb_spec (q, f) (x, f)) as [E|N]; [inversion E; congruence|].
+        finb b x x.
+    + assert (Hn : forall q, hdv (V (x, f)) <> VObj q) by (intros q E; rewrite E in Eq; discriminate).
+      pose proof (Hn a) as Hna.
+      finb b x x.
+  - destruct (obj_of (hdv (V (y, f)))) as [c|] eqn:Ec.
+    + apply obj_of_Some' in Ec. pose proof (HsymV y c) as S4.
+      destruct (obj_of (hdv (V (x, f)))) as [q|] eqn:Eq.
+      * apply obj_of_Some' in Eq. pose proof (HsymV x q) as S3.
+        destruct (Nat.eqb_spec y q) as [Eyq|Nyq]; destruct (Nat.eqb_spec c x) as [Ecx|Ncx];
+          try destruct (cell_eqb_spec (q, f) (x, f)) as [E|N]; try (inversion E; subst q);
+          finb b x y.
+      * assert (Hn : forall q, hdv (V (x, f)) <> VObj q) by (intros q E; rewrite E in Eq; discriminate).
+        pose proof (Hn a) as Hna. pose proof (Hn y) as Hny.
+        destruct (Nat.eqb_spec c x) as [Ecx|Ncx];
+          finb b x y.
+    + assert (Hm : forall c, hdv (V (y, f)) <> VObj c) by (intros c E; rewrite E in Ec; discriminate).
+      pose proof (Hm a) as Hma. pose proof (Hm x) as Hmx.
+      destruct (obj_of (hdv (V (x, f)))) as [q|] eqn:Eq.
+      * apply obj_of_Some' in Eq. pose proof (HsymV x q) as S3.
+        destruct (Nat.eqb_spec y q) as [Eyq|Nyq];
+          try destruct (cell_eqb_spec (q, f) (x, f)) as [E|N]; try (inversion E; subst q);
+          finb b x y.
+      * assert (Hn : forall q, hdv (V (x, f)) <> VObj q) by (intros q E; rewrite E in Eq; discriminate).
+        pose proof (Hn a) as Hna. pose proof (Hn y) as Hny.
+        finb b x y.
+Qed.
+
+Section SelfOpp.
+Variable m : mm.
+Hypothesis Hnc : no_containment m.
+Hypothesis Hwf : wf_opp m.
+
+Lemma set_self_vals s x f y :
+  f_opp (fd m f) = Some f -> f_many (fd m f) = false ->
+  check_single m f (VObj y) = true ->
+  forall k, vals (snd (set_full m s (x, f) (VObj y))) k = WS (vals s) x y f k.
+Proof.
+  intros Hff Hsf Hchk k. destruct (Hwf f f Hff) as [_ [Href _]].
+  unfold set_full, WS. rewrite Hchk, Href. cbn [negb]. rewrite (update_container_id m Hnc). rewrite Hff.
+  cbn [obj_of]. rewrite Hsf. cbv beta iota zeta.
+  change (single s (x, f)) with (hdv (vals s (x, f))).
+  assert (T : forall s3 V3, vals s3 = V3 ->
+     vals (set_obj_raw m (match obj_of (single s3 (y, f)) with
+                          | Some c => if c =? x then s3 else set_none_raw m s3 (c, f)
+                          | None => s3 end) (y, f) x) k =
+     upd (match obj_of (hdv (V3 (y, f))) with
+          | Some c => if c =? x then V3 else upd V3 (c, f) [VNone]
+          | None => V3 end) (y, f) [VObj x] k).
+  { intros s3 V3 E. subst V3. rewrite (vals_set_obj_raw m Hnc).
+    change (single s3 (y, f)) with (hdv (vals s3 (y, f))).
+    destruct (obj_of (hdv (vals s3 (y, f)))) as [c|]; [|reflexivity].
+    destruct (c =? x); [reflexivity|]. rewrite (vals_set_none_raw m Hnc). reflexivity. }
+  destruct (obj_of (hdv (vals s (x, f)))) as [q|].
+  - destruct (y =? q); [apply T; reflexivity|].
+    destruct (cell_eqb (q, f) (x, f)); [apply T; reflexivity|].
+    apply T. rewrite (vals_set_none_raw m Hnc). reflexivity.
+  - apply T; reflexivity.
+Qed.
+
+Theorem set_self_preserves_sym s x f y :
+  sym m s -> shape m s ->
+  f_opp (fd m f) = Some f -> f_many (fd m f) = false ->
+  check_single m f (VObj y) = true ->
+  sym m (snd (set_full m s (x, f) (VObj y))).
+Proof.
+  intros Hsym Hsh Hff Hsf Hchk.
+  pose proof (set_self_vals s x f y Hff Hsf Hchk) as HV.
+  pose proof (shape_set_full m Hnc Hwf s x f (VObj y) Hsh Hsf) as Hsh'.
+  set (s' := snd (set_full m s (x, f) (VObj y))) in *.
+  assert (HsymV : forall a b : oid, hdv (vals s (a, f)) = VObj b <-> hdv (vals s (b, f)) = VObj a).
+  { intros a b. rewrite <- (R_hdv s a f b) by (apply (proj1 (Hsh a f)); exact Hsf).
+    rewrite <- (R_hdv s b f a) by (apply (proj1 (Hsh b f)); exact Hsf). apply Hsym. exact Hff. }
+  apply (sym_by_delta_self m s s' f
+           (fun a b => a = x \/ b = x \/ a = y \/ b = y)
+           (fun a b => (a = x /\ b = y) \/ (a = y /\ b = x)) Hwf Hsym Hff).
+  - intros a b. tauto.
+  - intros a b. tauto.
+  - intros a b.
+    rewrite (R_hdv s' a f b) by (apply (proj1 (Hsh' a f)); exact Hsf).
+    rewrite (R_hdv s a f b) by (apply (proj1 (Hsh a f)); exact Hsf).
+    rewrite HV. rewrite (self_store (vals s) x y f HsymV a b). tauto.
+  - intros h a Hh. rewrite HV. unfold WS. cbv zeta.
+    rewrite upd_other by (intros E; inversion E; congruence).
+    assert (H3 : forall V3 : cell -> list value,
+              V3 (a, h) = vals s (a, h) ->
+              (match obj_of (hdv (V3 (y, f))) with
+               | Some c => if c =? x then V3 else upd V3 (c, f) [VNone]
+               | None => V3 end) (a, h) = vals s (a, h)).
+    { intros V3 E. destruct (obj_of (hdv (V3 (y, f)))) as [c|]; [|exact E].
+      destruct (c =? x); [exact E|]. rewrite upd_other by (intros E2; inversion E2; congruence). exact E. }
+    apply H3.
+    assert (H1 : upd (vals s) (x, f) [VObj y] (a, h) = vals s (a, h))
+      by (apply upd_other; intros E; inversion E; congruence).
+    destruct (obj_of (hdv (vals s (x, f)))) as [q|]; [|exact H1].
+    destruct (y =? q); [exact H1|]. destruct (cell_eqb (q, f) (x, f)); [exact H1|].
+    rewrite upd_other by (intros E; inversion E; congruence). exact H1.
+Qed.
+
+(* x.f.append(y) / insert for a many-valued self-opposite f (x.f.append(x) included) *)
+Theorem add_self_preserves_sym s x f pos y :
+  sym m s ->
+  f_opp (fd m f) = Some f -> f_many (fd m f) = true ->
+  check_elem m f (VObj y) = true ->
+  sym m (snd (coll_add_full m s (x, f) pos (VObj y))).
+Proof.
+  intros Hsym Hff Hmf Hchk. destruct (Hwf f f Hff) as [_ [Href Huf]]. specialize (Huf Hmf).
+  assert (HV : forall k, vals (snd (coll_add_full m s (x, f) pos (VObj y))) k =
+     let V1 := if cell_eqb (y, f) (x, f) then vals s
+               else upd (vals s) (y, f) (raw_append true (VObj x) (vals s (y, f))) in
+     upd V1 (x, f) (match pos with Some i => raw_insert true i (VObj y) (vals s (x, f))
+                                 | None => raw_append true (VObj y) (vals s (x, f)) end) k).
+  { intros k. unfold coll_add_full. rewrite Hchk. cbn [negb snd].
+    cbn [vals set_isset notify push_log set_vals]. rewrite (vals_link m Hnc).
+    rewrite (Lval_own m (vals s) x f (VObj y) Hmf). rewrite Huf.
+    unfold Lval. rewrite Href. cbn [obj_of]. rewrite Hff, Hmf, Huf. reflexivity. }
+  set (s' := snd (coll_add_full m s (x, f) pos (VObj y))) in *.
+  apply (sym_by_delta_self m s s' f (fun _ _ => False)
+           (fun a b => (a = x /\ b = y) \/ (a = y /\ b = x)) Hwf Hsym Hff).
+  - tauto.
+  - intros a b. tauto.
+  - intros a b. unfold R. rewrite HV. cbv zeta.
+    destruct (cell_eqb_spec (x, f) (a, f)) as [E|N].
+    + inversion E; subst a. rewrite upd_same.
+      destruct pos as [i|]; [rewrite In_raw_insert_obj | rewrite raw_append_obj_In]; intuition congruence.
+    + rewrite upd_other by exact N.
+      destruct (cell_eqb_spec (y, f) (x, f)) as [E1|N1].
+      * inversion E1; subst y. intuition congruence.
+      * destruct (cell_eqb_spec (y, f) (a, f)) as [E2|N2].
+        -- inversion E2; subst a. rewrite upd_same. rewrite raw_append_obj_In. intuition congruence.
+        -- rewrite upd_other by exact N2. intuition congruence.
+  - intros h a Hh. rewrite HV. cbv zeta.
+    rewrite upd_other by (intros E; inversion E; congruence).
+    destruct (cell_eqb (y, f) (x, f)); [reflexivity|].
+    apply upd_other. intros E; inversion E; congruence.
+Qed.
+End SelfOpp.
+
+(* ---------- the three elementary operations, for EVERY feature and value ---------- *)
+Section Gen.
+Variable m : mm.
+Hypothesis Hnc : no_containment m.
+Hypothesis Hwf : wf_opp m.
+
+Lemma Uval_nonobj V x f v : obj_of v = None -> Uval m V x f v = V.
+Proof. intros H. unfold Uval. rewrite H. destruct (f_isref (fd m f)); reflexivity. Qed.
+
+Lemma Uval_noopp V x f v : f_opp (fd m f) = None -> Uval m V x f v = V.
+Proof. intros H. unfold Uval. rewrite H. destruct (f_isref (fd m f)); [destruct (obj_of v)|]; reflexivity. Qed.
+
+Lemma Lval_nonobj V x f v : obj_of v = None -> Lval m V x f v = V.
+Proof. intros H. unfold Lval. rewrite H. destruct (f_isref (fd m f)); reflexivity. Qed.
+
+Lemma Lval_noopp V x f v : f_opp (fd m f) = None -> Lval m V x f v = V.
+Proof. intros H. unfold Lval. rewrite H. destruct (f_isref (fd m f)); [destruct (obj_of v)|]; reflexivity. Qed.
+
+Lemma vals_remove_full s x f v :
+  f_many (fd m f) = true ->
+  forall k, vals (coll_remove_full m s (x, f) v) k =
+            upd (Uval m (vals s) x f v) (x, f) (raw_remove v (vals s (x, f))) k.
+Proof.
+  intros Hm k.
+  change (vals (coll_remove_full m s (x, f) v))
+    with (upd (vals (unlink_elem m s x f v)) (x, f) (raw_remove v (vals (unlink_elem m s x f v) (x, f)))).
+  rewrite (vals_unlink m Hnc). rewrite (Uval_own m _ x f v Hm). reflexivity.
+Qed.
+
+Theorem remove_gen s x f v :
+  Inv m s -> f_many (fd m f) = true -> vmem v (vals s (x, f)) = true ->
+  Inv m (coll_remove_full m s (x, f) v).
+Proof.
+  intros [Hsym Hsh] Hm Hin. pose proof (vals_remove_full s x f v Hm) as HV.
+  destruct (obj_of v) as [y|] eqn:Ev.
+  - apply obj_of_Some' in Ev. subst v. apply vmem_obj in Hin. destruct (f_opp (fd m f)) as [g|] eqn:Hfg.
+    + split; [apply (remove_preserves_sym m Hnc Hwf s x f g y); assumption
+             | apply shape_coll_remove_full; assumption].
+    + apply (Inv_frame_noopp m s _ x f Hwf Hfg); [| intros C; congruence | split; assumption].
+      intros k Nk. rewrite HV. rewrite upd_other by (intros E; apply Nk; symmetry; exact E).
+      rewrite Uval_noopp by exact Hfg. reflexivity.
+  - apply (Inv_objs_ext_cell m s _ x f Hm); [| | split; assumption].
+    + intros k Nk. rewrite HV. rewrite upd_other by (intros E; apply Nk; symmetry; exact E).
+      rewrite Uval_nonobj by exact Ev. reflexivity.
+    + rewrite HV, upd_same. apply raw_remove_objs_nonobj. exact Ev.
+Qed.
+
+Lemma vals_add_full s x f pos v :
+  f_many (fd m f) = true -> check_elem m f v = true ->
+  forall k, vals (snd (coll_add_full m s (x, f) pos v)) k =
+            upd (Lval m (vals s) x f v) (x, f)
+                (match pos with
+                 | Some i => raw_insert (f_unique (fd m f)) i v (vals s (x, f))
+                 | None => raw_append (f_unique (fd m f)) v (vals s (x, f)) end) k.
+Proof.
+  intros Hm Hc k. unfold coll_add_full. rewrite Hc. cbn [negb snd].
+  cbn [vals set_isset notify push_log set_vals]. rewrite (vals_link m Hnc).
+  rewrite (Lval_own m (vals s) x f v Hm). reflexivity.
+Qed.
+
+Theorem add_gen s x f pos v :
+  Inv m s -> f_many (fd m f) = true -> Inv m (snd (coll_add_full m s (x, f) pos v)).
+Proof.
+  intros [Hsym Hsh] Hm.
+  destruct (check_elem m f v) eqn:Hc.
+  2:{ unfold coll_add_full. rewrite Hc. cbn [negb snd]. split; assumption. }
+  pose proof (vals_add_full s x f pos v Hm Hc) as HV.
+  destruct (obj_of v) as [y|] eqn:Ev.
+  - apply obj_of_Some' in Ev. subst v. destruct (f_opp (fd m f)) as [g|] eqn:Hfg.
+    + split; [|apply shape_coll_add_full; assumption].
+      destruct (Nat.eq_dec f g) as [E|N].
+      * subst g. apply (add_self_preserves_sym m Hnc Hwf); assumption.
+      * destruct (f_many (fd m g)) eqn:Hg.
+        -- apply (add_nn_preserves_sym m Hnc Hwf s x f g pos y); assumption.
+        -- apply (add_n1_preserves_sym m Hnc Hwf s x f g pos y); assumption.
+    + apply (Inv_frame_noopp m s _ x f Hwf Hfg); [| intros C; congruence | split; assumption].
+      intros k Nk. rewrite HV. rewrite upd_other by (intros E; apply Nk; symmetry; exact E).
+      rewrite Lval_noopp by exact Hfg. reflexivity.
+  - apply (Inv_objs_ext_cell m s _ x f Hm); [| | split; assumption].
+    + intros k Nk. rewrite HV. rewrite upd_other by (intros E; apply Nk; symmetry; exact E).
+      rewrite Lval_nonobj by exact Ev. reflexivity.
+    + rewrite HV, upd_same. destruct pos; [apply raw_insert_objs_nonobj | apply raw_append_objs_nonobj]; exact Ev.
+Qed.
+
+Lemma vals_set_full_noopp s x f v :
+  f_opp (fd m f) = None ->
+  forall k, k <> (x, f) -> vals (snd (set_full m s (x, f) v)) k = vals s k.
+Proof.
+  intros Hfg k Nk. unfold set_full.
+  destruct (check_single m f v); cbn [negb]; [|reflexivity].
+  assert (H1 : vals (set_store m s (x, f) v) k = vals s k).
+  { rewrite (vals_set_store m). apply upd_other. intros E; apply Nk; symmetry; exact E. }
+  destruct (f_isref (fd m f)); cbn [negb snd]; [|exact H1].
+  rewrite (update_container_id m Hnc). rewrite Hfg. cbn [snd].
+  destruct (obj_of v); destruct (obj_of (single s (x, f))); unfold inv_add;
+    try (match goal with |- context [cmem ?c ?l] => destruct (cmem c l) end); exact H1.
+Qed.
+
+Lemma objs_upd_ext (A B : cell -> list value) c r :
+  (forall k, objs_of (A k) = objs_of (B k)) -> forall k, objs_of (upd A c r k) = objs_of (upd B c r k).
+Proof. intros E k. unfold upd. destruct (cell_eqb c k); [reflexivity | apply E]. Qed.
+
+(* storing a non-object in a bidirectional slot releases the partner exactly like None *)
+Lemma set_nonobj_objs s x f g v :
+  f_opp (fd m f) = Some g -> f_many (fd m f) = false ->
+  obj_of v = None -> check_single m f v = true ->
+  forall k, objs_of (vals (snd (set_full m s (x, f) v)) k) =
+            objs_of (vals (snd (set_full m s (x, f) VNone)) k).
+Proof.
+  intros Hfg Hs Hv Hc. destruct (Hwf f g Hfg) as [Hgf [Href _]].
+  assert (HA : forall k, objs_of (upd (vals s) (x, f) [v] k) = objs_of (upd (vals s) (x, f) [VNone] k)).
+  { intros k. unfold upd. destruct (cell_eqb (x, f) k); [|reflexivity].
+    rewrite (objs_of_cons_nonobj v [] Hv). reflexivity. }
+  unfold set_full. rewrite Hc. cbn [check_single conforms negb]. rewrite Href. cbn [negb].
+  rewrite !(update_container_id m Hnc). rewrite Hfg. rewrite Hv. cbn [obj_of snd]. cbv beta iota.
+  destruct (obj_of (single s (x, f))) as [q|]; [|exact HA].
+  destruct (f_many (fd m g)) eqn:Hg.
+  - rewrite !(vals_coll_remove_raw m Hnc). cbn [vals set_store notify push_log set_isset set_vals].
+    rewrite !(upd_other (vals s) (x, f) (q, g)) by (intros E; inversion E; congruence).
+    destruct (vmem (VObj x) (vals s (q, g))); [apply objs_upd_ext|]; exact HA.
+  - destruct (cell_eqb (q, g) (x, f)); [exact HA|].
+    rewrite !(vals_set_none_raw m Hnc). apply objs_upd_ext. exact HA.
+Qed.
+
+Theorem set_gen s x f v :
+  Inv m s -> f_many (fd m f) = false -> Inv m (snd (set_full m s (x, f) v)).
+Proof.
+  intros [Hsym Hsh] Hs.
+  pose proof (shape_set_full m Hnc Hwf s x f v Hsh Hs) as Hsh'.
+  split; [|exact Hsh'].
+  destruct (check_single m f v) eqn:Hc.
+  2:{ unfold set_full. rewrite Hc. cbn [negb snd]. exact Hsym. }
+  destruct (f_opp (fd m f)) as [g|] eqn:Hfg.
+  - destruct (obj_of v) as [y|] eqn:Ev.
+    + apply obj_of_Some' in Ev. subst v.
+      destruct (Nat.eq_dec f g) as [E|N].
+      * subst g. apply (set_self_preserves_sym m Hnc Hwf); assumption.
+      * destruct (f_many (fd m g)) eqn:Hg.
+        -- apply (set_1n_preserves_sym m Hnc Hwf s x f g y); assumption.
+        -- apply (set11_preserves_sym m Hnc Hwf s x f g y); assumption.
+    + apply (sym_objs_ext m (snd (set_full m s (x, f) VNone))).
+      * exact (set_nonobj_objs s x f g v Hfg Hs Ev Hc).
+      * apply (unset_preserves_sym m Hnc Hwf s x f g); assumption.
+  - apply (Inv_frame_noopp m s _ x f Hwf Hfg).
+    + exact (vals_set_full_noopp s x f v Hfg).
+    + intros _. exact (proj1 (Hsh' x f) Hs).
+    + split; assumption.
+Qed.
+End Gen.
+
+(* ---------- the composite operations of `step` ---------- *)
+Section Composite.
+Variable m : mm.
+Hypothesis Hnc : no_containment m.
+Hypothesis Hwf : wf_opp m.
+
+Lemma noopp_of_nonunique f :
+  f_many (fd m f) = true -> f_unique (fd m f) = false -> f_opp (fd m f) = None.
+Proof.
+  intros Hm Hu. destruct (f_opp (fd m f)) as [g|] eqn:E; [|reflexivity].
+  destruct (Hwf f g E) as [_ [_ H]]. specialize (H Hm). congruence.
+Qed.
+
+Lemma econtents_nil s o : econtents m s o = [].
+Proof.
+  unfold econtents. induction (ref_feats m o) as [|f l IH]; simpl; [reflexivity|].
+  rewrite Hnc. exact IH.
+Qed.
+
+(* pop / unique del c[i] *)
+Theorem pop_gen s x f i :
+  Inv m s -> f_many (fd m f) = true -> Inv m (snd (fst (coll_pop_full m s (x, f) i))).
+Proof.
+  intros HI Hm. unfold coll_pop_full.
+  destruct (vals s (x, f)) as [|a0 l0] eqn:El; [exact HI|]. rewrite <- El.
+  destruct (py_pop i (vals s (x, f))) as [[v l']|] eqn:Ep; [|exact HI]. cbn [fst snd].
+  destruct (py_pop_nth i _ _ _ Ep) as [n [Hn Hl']].
+  assert (Hin : vmem v (vals s (x, f)) = true) by (apply In_vmem; eapply nth_error_In; exact Hn).
+  assert (HV : forall k, vals (notify m (unlink_elem m (set_vals s (x, f) l') x f v) x f KRemove (POne v) (POne VNone)) k
+                         = upd (Uval m (vals s) x f v) (x, f) l' k).
+  { intros k. cbn [vals notify push_log]. rewrite (vals_unlink m Hnc). cbn [vals set_vals].
+    apply Uval_comm. exact Hm. }
+  destruct (f_opp (fd m f)) as [g|] eqn:Hfg.
+  - pose proof (remove_gen m Hnc Hwf s x f v HI Hm Hin) as HR.
+    pose proof (vals_remove_full m Hnc s x f v Hm) as HVR.
+    apply (Inv_objs_ext_cell m (coll_remove_full m s (x, f) v) _ x f Hm); [| |exact HR].
+    + intros k Nk. rewrite HV, HVR. rewrite !upd_other by (intros E; apply Nk; symmetry; exact E). reflexivity.
+    + rewrite HV, HVR, !upd_same. subst l'.
+      destruct (obj_of v) as [y|] eqn:Ev.
+      * apply obj_of_Some' in Ev. subst v.
+        assert (ND : nodup_objs (vals s (x, f))) by (apply (proj2 (proj2 HI x f)); congruence).
+        unfold raw_remove. rewrite (remove_first_is_remove_at y _ n ND Hn). reflexivity.
+      * rewrite (raw_remove_objs_nonobj v _ Ev). exact (remove_at_objs_nonobj _ n Hn Ev).
+  - apply (Inv_frame_noopp m s _ x f Hwf Hfg); [| intros C; congruence | exact HI].
+    intros k Nk. rewrite HV. rewrite upd_other by (intros E; apply Nk; symmetry; exact E).
+    rewrite (Uval_noopp m) by exact Hfg. reflexivity.
+Qed.
+
+(* clear *)
+Lemma clear_loop x f :
+  f_many (fd m f) = true ->
+  forall rest s0, Inv m (set_vals s0 (x, f) rest) ->
+  Inv m (set_vals (fold_left (fun acc v => unlink_elem m acc x f v) rest s0) (x, f) []).
+Proof.
+  intros Hm. induction rest as [|v rest IH]; intros s0 HI; [exact HI|].
+  cbn [fold_left]. apply IH.
+  set (t := set_vals s0 (x, f) (v :: rest)) in *.
+  assert (Hin : vmem v (vals t (x, f)) = true).
+  { apply In_vmem. unfold t. cbn [vals set_vals]. rewrite upd_same. left; reflexivity. }
+  pose proof (remove_gen m Hnc Hwf t x f v HI Hm Hin) as HR.
+  apply (Inv_ext m (coll_remove_full m t (x, f) v)); [|exact HR].
+  intros k. rewrite (vals_remove_full m Hnc t x f v Hm).
+  cbn [vals set_vals]. unfold t. cbn [vals set_vals]. rewrite upd_same.
+  rewrite (vals_unlink m Hnc).
+  rewrite (upd_ext _ _ (x, f) (raw_remove v (v :: rest)) (Uval_comm m (vals s0) x f v (v :: rest) Hm)).
+  rewrite upd_upd. unfold raw_remove. cbn [remove_first]. rewrite veqb_refl. reflexivity.
+Qed.
+
+Theorem clear_gen s x f :
+  Inv m s -> f_many (fd m f) = true -> Inv m (coll_clear_full m s (x, f)).
+Proof.
+  intros HI Hm. unfold coll_clear_full.
+  destruct (vals s (x, f)) as [|a0 l0] eqn:El; [exact HI|]. rewrite <- El.
+  apply (Inv_ext m (set_vals (fold_left (fun acc v => unlink_elem m acc x f v) (vals s (x, f)) s) (x, f) []));
+    [reflexivity|].
+  apply clear_loop; [exact Hm|].
+  apply (Inv_ext m s); [|exact HI]. intros k. cbn [vals set_vals]. unfold upd.
+  destruct (cell_eqb_spec (x, f) k) as [E|N]; [subst k; reflexivity | reflexivity].
+Qed.
+
+(* extend / update / += *)
+Lemma extend_loop x f :
+  f_many (fd m f) = true -> f_unique (fd m f) = true ->
+  forall vs s0, Inv m s0 -> (forall v, In v vs -> check_elem m f v = true) ->
+  Inv m (fold_left (fun acc v => link_elem m (set_vals acc (x, f) (raw_append true v (vals acc (x, f)))) x f v) vs s0).
+Proof.
+  intros Hm Hu. induction vs as [|v vs IH]; intros s0 HI Hchk; [exact HI|].
+  cbn [fold_left]. apply IH; [|intros w Hw; apply Hchk; right; exact Hw].
+  assert (Hc : check_elem m f v = true) by (apply Hchk; left; reflexivity).
+  apply (Inv_ext m (snd (coll_add_full m s0 (x, f) None v))); [|apply (add_gen m Hnc Hwf); assumption].
+  intros k. rewrite (vals_add_full m Hnc s0 x f None v Hm Hc). rewrite Hu.
+  rewrite (vals_link m Hnc). cbn [vals set_vals]. apply Lval_comm. exact Hm.
+Qed.
+
+Lemma fold_link_noopp x f vs :
+  f_opp (fd m f) = None ->
+  forall s0, vals (fold_left (fun acc v => link_elem m acc x f v) vs s0) = vals s0.
+Proof.
+  intros Hfg. induction vs as [|v vs IH]; intros s0; [reflexivity|].
+  cbn [fold_left]. rewrite IH. rewrite (vals_link m Hnc). apply Lval_noopp. exact Hfg.
+Qed.
+
+Theorem extend_gen s x f vs :
+  Inv m s -> f_many (fd m f) = true -> Inv m (snd (coll_extend_full m s (x, f) vs)).
+Proof.
+  intros HI Hm. unfold coll_extend_full.
+  destruct (forallb (check_elem m f) vs) eqn:Ec; cbn [negb snd]; [|exact HI].
+  assert (Hvs : forall v, In v vs -> check_elem m f v = true).
+  { intros v Hv. rewrite forallb_forall in Ec. apply Ec. exact Hv. }
+  destruct (f_unique (fd m f)) eqn:Hu.
+  - apply (Inv_ext m (fold_left (fun acc v => link_elem m (set_vals acc (x, f) (raw_append true v (vals acc (x, f)))) x f v) vs s));
+      [reflexivity|].
+    apply extend_loop; assumption.
+  - pose proof (noopp_of_nonunique f Hm Hu) as Hfg.
+    apply (Inv_frame_noopp m s _ x f Hwf Hfg); [| intros C; congruence | exact HI].
+    intros k Nk. cbn [vals set_isset notify push_log set_vals].
+    rewrite upd_other by (intros E; apply Nk; symmetry; exact E).
+    rewrite (fold_link_noopp x f vs Hfg). reflexivity.
+Qed.
+
+(* c[i] = v *)
+Theorem setitem_gen s x f i v :
+  Inv m s -> f_many (fd m f) = true -> Inv m (snd (coll_setitem_full m s (x, f) i v)).
+Proof.
+  intros HI Hm. unfold coll_setitem_full.
+  destruct (check_elem m f v) eqn:Ec; cbn [negb]; [|exact HI].
+  destruct (f_unique (fd m f)) eqn:Hu.
+  - destruct ((i <? 0)%Z && ((if (i <? 0)%Z then (zlen (vals s (x, f)) + i)%Z else i) <? 0)%Z); [exact HI|].
+    unfold seq_outcome.
+    pose proof (pop_gen s x f (if (i <? 0)%Z then (zlen (vals s (x, f)) + i)%Z else i) HI Hm) as Hp.
+    destruct (fst (coll_pop_full m s (x, f) (if (i <? 0)%Z then (zlen (vals s (x, f)) + i)%Z else i))) as [[e|] s1];
+      cbn [snd] in *; [exact Hp|].
+    apply (add_gen m Hnc Hwf); assumption.
+  - pose proof (noopp_of_nonunique f Hm Hu) as Hfg.
+    assert (H1 : vals (link_elem m s x f v) = vals s).
+    { rewrite (vals_link m Hnc). apply Lval_noopp. exact Hfg. }
+    destruct (norm_index (zlen (vals (link_elem m s x f v) (x, f))) i) as [n|]; cbn [snd].
+    + apply (Inv_frame_noopp m s _ x f Hwf Hfg); [| intros C; congruence | exact HI].
+      intros k Nk. cbn [vals set_isset notify push_log set_vals].
+      rewrite upd_other by (intros E; apply Nk; symmetry; exact E). rewrite H1. reflexivity.
+    + apply (Inv_ext m s); [|exact HI]. intros k. rewrite H1. reflexivity.
+Qed.
+
+(* del c[i] *)
+Theorem delitem_gen s x f i :
+  Inv m s -> f_many (fd m f) = true -> Inv m (snd (coll_delitem_full m s (x, f) i)).
+Proof.
+  intros HI Hm. unfold coll_delitem_full. cbn [snd].
+  destruct (f_unique (fd m f)) eqn:Hu; [apply pop_gen; assumption|].
+  pose proof (noopp_of_nonunique f Hm Hu) as Hfg.
+  destruct (py_pop i (vals s (x, f))) as [[w l']|]; cbn [snd]; [|exact HI].
+  apply (Inv_frame_noopp m s _ x f Hwf Hfg); [| intros C; congruence | exact HI].
+  intros k Nk. cbn [vals set_vals]. apply upd_other. intros E; apply Nk; symmetry; exact E.
+Qed.
+
+(* x.f = [...] *)
+Theorem assign_gen s x f vs :
+  Inv m s -> f_many (fd m f) = true -> Inv m (snd (assign_full m s (x, f) vs)).
+Proof.
+  intros HI Hm. unfold assign_full. cbn [snd].
+  destruct (forallb (check_elem m f) vs); cbn [negb snd]; [|exact HI].
+  apply extend_gen; [apply clear_gen; assumption | exact Hm].
+Qed.
+
+(* del x.f *)
+Theorem del_gen s x f : Inv m s -> Inv m (snd (del_full m s (x, f))).
+Proof.
+  intros HI. unfold del_full. cbn [snd]. destruct (f_many (fd m f)) eqn:Hm; cbn [snd].
+  - apply clear_gen; assumption.
+  - apply (set_gen m Hnc Hwf); assumption.
+Qed.
+
+(* x.delete() *)
+Lemma delete_step_gen x s k : Inv m s -> Inv m (delete_step m x s k).
+Proof.
+  intros HI. destruct k as [owner f]. unfold delete_step.
+  destruct (f_many (fd m f)) eqn:Hm.
+  - destruct (owner =? x); [apply clear_gen; assumption|].
+    destruct (vmem (VObj x) (vals s (owner, f))) eqn:E; [|exact HI].
+    apply (remove_gen m Hnc Hwf); assumption.
+  - destruct ((match single s (owner, f) with VObj y => y =? x | _ => false end) || (owner =? x)); [|exact HI].
+    apply (set_gen m Hnc Hwf); assumption.
+Qed.
+
+Lemma fold_delete_step_gen x l s : Inv m s -> Inv m (fold_left (delete_step m x) l s).
+Proof.
+  revert s; induction l as [|k l IH]; intros s HI; simpl; [exact HI|].
+  apply IH. apply delete_step_gen. exact HI.
+Qed.
+
+Theorem delete_obj_gen fuel s x r : Inv m s -> Inv m (delete_obj fuel m s x r).
+Proof.
+  destruct fuel as [|fu]; intros HI; [exact HI|]. cbn [delete_obj].
+  rewrite econtents_nil. cbn [fold_left].
+  apply fold_delete_step_gen. destruct r; exact HI.
+Qed.
+
+(* resources: Resource.append / remove / extend *)
+Theorem res_append_gen s r o : Inv m s -> Inv m (res_append m s r o).
+Proof.
+  intros HI. unfold res_append.
+  assert (G : forall s0, Inv m s0 ->
+     Inv m (let s1 := set_eres (set_rcont s0 r (rcont s0 r ++ [o])) o (Some r) in
+            match cont s1 o with
+            | Some (p, pf) =>
+              if f_many (fd m pf)
+              then (if vmem (VObj o) (vals s1 (p, pf)) then coll_remove_full m s1 (p, pf) (VObj o) else s1)
+              else snd (set_full m s1 (p, pf) VNone)
+            | None => s1 end)).
+  { intros s0 H0. cbv zeta.
+    set (s1 := set_eres (set_rcont s0 r (rcont s0 r ++ [o])) o (Some r)).
+    assert (H1 : Inv m s1) by (apply (Inv_ext m s0); [reflexivity | exact H0]).
+    destruct (cont s1 o) as [[p pf]|]; [|exact H1].
+    destruct (f_many (fd m pf)) eqn:Hm.
+    - destruct (vmem (VObj o) (vals s1 (p, pf))) eqn:E; [|exact H1].
+      apply (remove_gen m Hnc Hwf); assumption.
+    - apply (set_gen m Hnc Hwf); assumption. }
+  assert (HR : forall p, Inv m (res_remove_raw s p o)) by (intros p; apply (Inv_ext m s); [reflexivity | exact HI]).
+  destruct (eres s o) as [p|]; [|apply G; exact HI].
+  destruct (nmem o (rcont s p)); [|apply G; exact HI].
+  destruct (p =? r); [exact HI | apply G; apply HR].
+Qed.
+
+Theorem res_remove_gen s r o : Inv m s -> Inv m (snd (res_remove s r o)).
+Proof.
+  intros HI. unfold res_remove. destruct (nmem o (rcont s r)); cbn [snd]; [|exact HI].
+  apply (Inv_ext m s); [reflexivity | exact HI].
+Qed.
+
+(* ---------- the assembled theorems ---------- *)
+Definition op_fits (o : op) : Prop :=
+  match o with
+  | OAppend x f _ | OInsert x f _ _ | ORemove x f _ | OPop x f _ | OClear x f
+  | OExtend x f _ | OSetItem x f _ _ | ODelItem x f _ => f_many (fd m f) = true
+  | _ => True
+  end.
+
+Theorem sym_step s o : Inv m s -> op_fits o -> Inv m (next m s o).
+Proof.
+  intros HI Ho. unfold next, step.
+  destruct o as [x f v|x f|x f|x f vs|x f v|x f i v|x f v|x f i|x f|x f vs|x f i v|x f i|x r|r o|r o|r os|x f];
+    cbn [fst snd]; cbn [op_fits] in Ho.
+  - destruct (f_many (fd m f)) eqn:Hm; [exact HI | apply (set_gen m Hnc Hwf); assumption].
+  - destruct (f_many (fd m f)) eqn:Hm; [exact HI | apply (set_gen m Hnc Hwf); assumption].
+  - apply del_gen; exact HI.
+  - destruct (f_many (fd m f)) eqn:Hm; [apply assign_gen; assumption | exact HI].
+  - apply (add_gen m Hnc Hwf); assumption.
+  - apply (add_gen m Hnc Hwf); assumption.
+  - unfold coll_remove_top. destruct (vmem v (vals s (x, f))) eqn:E; cbn [snd]; [|exact HI].
+    apply (remove_gen m Hnc Hwf); assumption.
+  - apply pop_gen; assumption.
+  - apply clear_gen; assumption.
+  - apply extend_gen; assumption.
+  - apply setitem_gen; assumption.
+  - apply delitem_gen; assumption.
+  - apply delete_obj_gen; exact HI.
+  - apply res_append_gen; exact HI.
+  - apply res_remove_gen; exact HI.
+  - generalize dependent s. induction os as [|o os IH]; intros s HI; simpl; [exact HI|].
+    apply IH. apply res_append_gen. exact HI.
+  - exact HI.
+Qed.
+
+Theorem sym_history_from ops s :
+  Inv m s -> Forall op_fits ops -> Inv m (fold_left (next m) ops s).
+Proof.
+  revert s; induction ops as [|o ops IH]; intros s HI Hok; simpl; [exact HI|].
+  inversion Hok; subst. apply IH; [apply sym_step; assumption | assumption].
+Qed.
+
+(* the initial state: every bidirectional slot is empty when reference defaults are None *)
+Definition ref_defaults_none : Prop :=
+  forall f, f_isref (fd m f) = true -> f_many (fd m f) = false -> f_default (fd m f) = VNone.
+
+Lemma Inv_init : ref_defaults_none -> Inv m (init_state m).
+Proof.
+  intros Hd. split.
+  - assert (Hno : forall f g a b, f_opp (fd m f) = Some g -> ~ R (init_state m) f a b).
+    { intros f g a b Hfg. destruct (Hwf f g Hfg) as [_ [Href _]]. unfold R. cbn [vals init_state snd].
+      destruct (f_many (fd m f)) eqn:Hm; [intros []|].
+      rewrite (Hd f Href Hm). intros [H|[]]. discriminate. }
+    intros f g Hfg a b. destruct (Hwf f g Hfg) as [Hgf _].
+    split; intros H; exfalso; [exact (Hno f g a b Hfg H) | exact (Hno g f b a Hgf H)].
+  - intros a f. cbn [vals init_state snd]. split.
+    + intros Hm. rewrite Hm. eexists; reflexivity.
+    + intros _. destruct (f_many (fd m f)); [constructor | apply nodup_single].
+Qed.
+
+Theorem sym_history ops :
+  ref_defaults_none -> Forall op_fits ops -> Inv m (fold_left (next m) ops (init_state m)).
+Proof. intros Hd Hok. apply sym_history_from; [apply Inv_init; exact Hd | exact Hok]. Qed.
+End Composite.
+
+(* ---------- without containment no object ever gets a container ---------- *)
+Section Cont.
+Variable m : mm.
+Hypothesis Hnc : no_containment m.
+
+Definition uncontained (s : state) : Prop := forall o, cont s o = None.
+
+Lemma cont_set_none_raw s k : cont (set_none_raw m s k) = cont s.
+Proof. unfold set_none_raw. destruct (f_isref (fd m (snd k))); rewrite ?(uc_clear_id m Hnc); reflexivity. Qed.
+
+Lemma cont_set_obj_raw s k x : cont (set_obj_raw m s k x) = cont s.
+Proof. unfold set_obj_raw. destruct (f_isref (fd m (snd k))); rewrite ?(update_container_id m Hnc); reflexivity. Qed.
+
+Lemma cont_coll_remove_raw s k x : cont (coll_remove_raw m s k x) = cont s.
+Proof. unfold coll_remove_raw. destruct (vmem (VObj x) (vals s k)); rewrite ?(uc_clear_id m Hnc); reflexivity. Qed.
+
+Lemma cont_coll_append_raw s k x : cont (coll_append_raw m s k x) = cont s.
+Proof. unfold coll_append_raw. rewrite (update_container_id m Hnc). reflexivity. Qed.
+
+Lemma cont_inv_add s o c : cont (inv_add s o c) = cont s.
+Proof. unfold inv_add. destruct (cmem c (inv s o)); reflexivity. Qed.
+
+Lemma cont_update_opposite_remove s x f y : cont (update_opposite_remove m s x f y) = cont s.
+Proof.
+  unfold update_opposite_remove. destruct (f_opp (fd m f)) as [g|].
+  - destruct (f_many (fd m g)); [destruct (cell_eqb (y, g) (x, f)); [reflexivity | apply cont_coll_remove_raw]
+                                | apply cont_set_none_raw].
+  - destruct (cmem (x, f) (inv s y)); [reflexivity | apply cont_inv_add].
+Qed.
+
+Lemma cont_unlink_elem s x f v : cont (unlink_elem m s x f v) = cont s.
+Proof.
+  unfold unlink_elem. destruct (f_isref (fd m f)); [|reflexivity]. destruct (obj_of v); [|reflexivity].
+  rewrite (uc_clear_id m Hnc). apply cont_update_opposite_remove.
+Qed.
+
+Lemma cont_coll_remove_full s x f v : cont (coll_remove_full m s (x, f) v) = cont s.
+Proof. exact (cont_unlink_elem s x f v). Qed.
+
+Lemma cont_update_opposite_add s x f y : cont (update_opposite_add m s x f y) = cont s.
+Proof.
+  unfold update_opposite_add. destruct (f_opp (fd m f)) as [g|]; [|apply cont_inv_add].
+  destruct (f_many (fd m g)).
+  - destruct (cell_eqb (y, g) (x, f)); [reflexivity | apply cont_coll_append_raw].
+  - rewrite cont_set_obj_raw. destruct (obj_of (single s (y, g))) as [c|]; [|reflexivity].
+    destruct (c =? x); [reflexivity | apply cont_coll_remove_raw].
+Qed.
+
+Lemma cont_link_elem s x f v : cont (link_elem m s x f v) = cont s.
+Proof.
+  unfold link_elem. destruct (f_isref (fd m f)); [|reflexivity]. destruct (obj_of v); [|reflexivity].
+  rewrite (update_container_id m Hnc). apply cont_update_opposite_add.
+Qed.
+
+Lemma cont_set_full s x f v : cont (snd (set_full m s (x, f) v)) = cont s.
+Proof.
+  unfold set_full. destruct (check_single m f v); cbn [negb]; [|reflexivity].
+  destruct (f_isref (fd m f)); cbn [negb]; [|reflexivity].
+  rewrite (update_container_id m Hnc).
+  destruct (f_opp (fd m f)) as [g|].
+  - set (s3 := match obj_of (single s (x, f)) with
+               | Some q =>
+                 if match obj_of v with Some y => y =? q | None => false end then set_store m s (x, f) v
+                 else if f_many (fd m g) then coll_remove_raw m (set_store m s (x, f) v) (q, g) x
+                 else if cell_eqb (q, g) (x, f) then set_store m s (x, f) v
+                      else set_none_raw m (set_store m s (x, f) v) (q, g)
+               | None => set_store m s (x, f) v end).
+    assert (H3 : cont s3 = cont s).
+    { unfold s3. destruct (obj_of (single s (x, f))) as [q|]; [|reflexivity].
+      destruct (match obj_of v with Some y => y =? q | None => false end); [reflexivity|].
+      destruct (f_many (fd m g)); [rewrite cont_coll_remove_raw; reflexivity|].
+      destruct (cell_eqb (q, g) (x, f)); [reflexivity | rewrite cont_set_none_raw; reflexivity]. }
+    destruct (obj_of v) as [y|]; [|exact H3].
+    destruct (f_many (fd m g)); cbn [snd].
+    + rewrite cont_coll_append_raw. exact H3.
+    + rewrite cont_set_obj_raw.
+      destruct (obj_of (single s3 (y, g))) as [c|]; [|exact H3].
+      destruct (c =? x); [exact H3 | rewrite cont_set_none_raw; exact H3].
+  - cbn [snd]. destruct (obj_of v); destruct (obj_of (single s (x, f))); rewrite ?cont_inv_add; reflexivity.
+Qed.
+
+Lemma cont_coll_add_full s x f pos v : cont (snd (coll_add_full m s (x, f) pos v)) = cont s.
+Proof.
+  unfold coll_add_full. destruct (check_elem m f v); cbn [negb snd]; [|reflexivity].
+  exact (cont_link_elem s x f v).
+Qed.
+
+Lemma cont_coll_pop_full s x f i : cont (snd (fst (coll_pop_full m s (x, f) i))) = cont s.
+Proof.
+  unfold coll_pop_full. destruct (vals s (x, f)) as [|a l] eqn:El; [reflexivity|]. rewrite <- El.
+  destruct (py_pop i (vals s (x, f))) as [[v l']|]; [|reflexivity]. cbn [fst snd].
+  exact (cont_unlink_elem (set_vals s (x, f) l') x f v).
+Qed.
+
+Lemma cont_fold_unlink x f l s : cont (fold_left (fun acc v => unlink_elem m acc x f v) l s) = cont s.
+Proof.
+  revert s; induction l as [|v l IH]; intros s; [reflexivity|]. cbn [fold_left]. rewrite IH. apply cont_unlink_elem.
+Qed.
+
+Lemma cont_coll_clear_full s x f : cont (coll_clear_full m s (x, f)) = cont s.
+Proof.
+  unfold coll_clear_full. destruct (vals s (x, f)) as [|a l]; [reflexivity|].
+  exact (cont_fold_unlink x f (a :: l) s).
+Qed.
+
+Lemma cont_coll_extend_full s x f vs : cont (snd (coll_extend_full m s (x, f) vs)) = cont s.
+Proof.
+  unfold coll_extend_full. destruct (forallb (check_elem m f) vs); cbn [negb snd]; [|reflexivity].
+  cbn [cont set_isset notify push_log].
+  destruct (f_unique (fd m f)).
+  - generalize s. induction vs as [|v vs IH]; intros s0; [reflexivity|].
+    cbn [fold_left]. rewrite IH. rewrite cont_link_elem. reflexivity.
+  - cbn [cont set_vals]. generalize s. induction vs as [|v vs IH]; intros s0; [reflexivity|].
+    cbn [fold_left]. rewrite IH. apply cont_link_elem.
+Qed.
+
+Lemma cont_coll_setitem_full s x f i v : cont (snd (coll_setitem_full m s (x, f) i v)) = cont s.
+Proof.
+  unfold coll_setitem_full. destruct (check_elem m f v); cbn [negb]; [|reflexivity].
+  destruct (f_unique (fd m f)).
+  - destruct ((i <? 0)%Z && ((if (i <? 0)%Z then (zlen (vals s (x, f)) + i)%Z else i) <? 0)%Z); [reflexivity|].
+    unfold seq_outcome.
+    pose proof (cont_coll_pop_full s x f (if (i <? 0)%Z then (zlen (vals s (x, f)) + i)%Z else i)) as Hp.
+    destruct (fst (coll_pop_full m s (x, f) (if (i <? 0)%Z then (zlen (vals s (x, f)) + i)%Z else i))) as [[e|] s1];
+      cbn [snd] in *; [exact Hp|].
+    rewrite cont_coll_add_full. exact Hp.
+  - destruct (norm_index (zlen (vals (link_elem m s x f v) (x, f))) i); cbn [snd];
+      [cbn [cont set_isset notify push_log set_vals]|]; apply cont_link_elem.
+Qed.
+
+Lemma cont_coll_delitem_full s x f i : cont (snd (coll_delitem_full m s (x, f) i)) = cont s.
+Proof.
+  unfold coll_delitem_full. cbn [snd]. destruct (f_unique (fd m f)); [apply cont_coll_pop_full|].
+  destruct (py_pop i (vals s (x, f))) as [[w l']|]; reflexivity.
+Qed.
+
+Lemma cont_delete_step x s k : cont (delete_step m x s k) = cont s.
+Proof.
+  destruct k as [owner f]. unfold delete_step. destruct (f_many (fd m f)).
+  - destruct (owner =? x); [apply cont_coll_clear_full|].
+    destruct (vmem (VObj x) (vals s (owner, f))); [apply cont_coll_remove_full | reflexivity].
+  - destruct ((match single s (owner, f) with VObj y => y =? x | _ => false end) || (owner =? x));
+      [apply cont_set_full | reflexivity].
+Qed.
+
+Lemma cont_fold_delete_step x l s : cont (fold_left (delete_step m x) l s) = cont s.
+Proof.
+  revert s; induction l as [|k l IH]; intros s; [reflexivity|]. cbn [fold_left]. rewrite IH. apply cont_delete_step.
+Qed.
+
+Lemma cont_delete_obj fuel s x r : cont (delete_obj fuel m s x r) = cont s.
+Proof.
+  revert s x r; induction fuel as [|fu IH]; intros s x r; [reflexivity|]. cbn [delete_obj].
+  set (s1 := if r then fold_left (fun acc c => delete_obj fu m acc c true) (econtents m s x) s else s).
+  assert (H1 : cont s1 = cont s).
+  { unfold s1. destruct r; [|reflexivity]. generalize (econtents m s x). intros l. generalize s.
+    induction l as [|c l IHl]; intros s0; [reflexivity|]. cbn [fold_left]. rewrite IHl. apply IH. }
+  rewrite cont_fold_delete_step. exact H1.
+Qed.
+
+Lemma cont_res_append s r o : cont (res_append m s r o) = cont s.
+Proof.
+  unfold res_append.
+  assert (G : forall s0,
+     cont (let s1 := set_eres (set_rcont s0 r (rcont s0 r ++ [o])) o (Some r) in
+           match cont s1 o with
+           | Some (p, pf) =>
+             if f_many (fd m pf)
+             then (if vmem (VObj o) (vals s1 (p, pf)) then coll_remove_full m s1 (p, pf) (VObj o) else s1)
+             else snd (set_full m s1 (p, pf) VNone)
+           | None => s1 end) = cont s0).
+  { intros s0. cbv zeta. set (s1 := set_eres (set_rcont s0 r (rcont s0 r ++ [o])) o (Some r)).
+    change (cont s0) with (cont s1).
+    destruct (cont s1 o) as [[p pf]|]; [|reflexivity].
+    destruct (f_many (fd m pf)).
+    - destruct (vmem (VObj o) (vals s1 (p, pf))); [apply cont_coll_remove_full | reflexivity].
+    - apply cont_set_full. }
+  destruct (eres s o) as [p|]; [|apply G].
+  destruct (nmem o (rcont s p)); [|apply G].
+  destruct (p =? r); [reflexivity | rewrite G; reflexivity].
+Qed.
+
+Theorem cont_step s o : cont (next m s o) = cont s.
+Proof.
+  unfold next, step.
+  destruct o as [x f v|x f|x f|x f vs|x f v|x f i v|x f v|x f i|x f|x f vs|x f i v|x f i|x r|r o|r o|r os|x f];
+    cbn [fst snd].
+  - destruct (f_many (fd m f)); [reflexivity | apply cont_set_full].
+  - destruct (f_many (fd m f)); [reflexivity | apply cont_set_full].
+  - unfold del_full. cbn [snd]. destruct (f_many (fd m f)); [apply cont_coll_clear_full | apply cont_set_full].
+  - destruct (f_many (fd m f)); [|reflexivity]. unfold assign_full. cbn [snd].
+    destruct (forallb (check_elem m f) vs); cbn [negb snd]; [|reflexivity].
+    rewrite cont_coll_extend_full. apply cont_coll_clear_full.
+  - apply cont_coll_add_full.
+  - apply cont_coll_add_full.
+  - unfold coll_remove_top. destruct (vmem v (vals s (x, f))); cbn [snd]; [apply cont_coll_remove_full | reflexivity].
+  - apply cont_coll_pop_full.
+  - apply cont_coll_clear_full.
+  - apply cont_coll_extend_full.
+  - apply cont_coll_setitem_full.
+  - apply cont_coll_delitem_full.
+  - apply cont_delete_obj.
+  - apply cont_res_append.
+  - unfold res_remove. destruct (nmem o (rcont s r)); reflexivity.
+  - generalize s. induction os as [|o os IH]; intros s0; [reflexivity|]. cbn [fold_left]. rewrite IH. apply cont_res_append.
+  - reflexivity.
+Qed.
+
+Theorem uncontained_history ops : uncontained (fold_left (next m) ops (init_state m)).
+Proof.
+  assert (G : forall s, uncontained s -> uncontained (fold_left (next m) ops s)).
+  { induction ops as [|o ops' IH]; intros s H; [exact H|]. cbn [fold_left]. apply IH.
+    intros c. rewrite cont_step. apply H. }
+  apply G. intros c. reflexivity.
+Qed.
+End Cont.
+
+(* ---------- a metamodel meeting every premise: a single-valued and a many-valued self-opposite feature ---------- *)
+Definition ex_mm_self : mm :=
+  {| feats := [ {| f_owner := 0; f_isref := true; f_many := false; f_unique := true; f_cont := false;
+                   f_opp := Some 0; f_type := TClass 0; f_default := VNone |};
+                {| f_owner := 0; f_isref := true; f_many := true; f_unique := true; f_cont := false;
+                   f_opp := Some 1; f_type := TClass 0; f_default := VNone |} ];
+     conf := [(0, 0)]; ocls := [0; 0; 0; 0]; enames := []; nres := 0 |}.
+
+Lemma ex_mm_self_ok : no_containment ex_mm_self /\ wf_opp ex_mm_self /\ ref_defaults_none ex_mm_self.
+Proof.
+  split; [|split].
+  - intros f. destruct f as [|[|[|f]]]; reflexivity.
+  - intros f g. destruct f as [|[|[|f]]]; cbn; intros H; inversion H; subst; cbn; repeat split; congruence.
+  - intros f. destruct f as [|[|[|f]]]; cbn; congruence.
 Qed.
